@@ -400,14 +400,14 @@ def gen_actor_case(rng, name, props, logger=False):
             pass
         return it
 
-    def mk_actor(ctx_ops, slab=False, pn=""):
+    def mk_actor(ctx_ops, slab=False, pn="", inm=False):
         aid = ids.next("aid")
         oid = ids.next("oid")
         kind = rng.choice(["now", "now", "now", "async", "async", "fail", "never", "stopinit", "failsome"])
         op = {"op": "acreate", "aid": aid, "oid": oid, "slab": slab, "form": rng.choice([0, 0, 1, 2])}
         if pn:
             op["pnotify"] = pn      # the child's notifier is also wired to its parent (ret_fail! / ret_failthru!)
-        if not slab and rng.random() < 0.08:
+        if not slab and rng.random() < (0.3 if inm else 0.08):
             # an actor of a boxed trait-object type (actor_of_trait!): created, initialised at once, later released
             ctx_ops.append({"op": "tcreate", "aid": aid, "oid": oid,
                             "init": {"id": ids.next("item"), "ops": [], "ret": "some"}})
@@ -456,8 +456,15 @@ def gen_actor_case(rng, name, props, logger=False):
             elif c < 0.45 and actors:
                 tgt = rng.choice(actors)
                 it["ops"].append({"op": "call", "aid": tgt, "item": meth_item(tgt, depth + 1)})
+            elif c < 0.49:
+                # a trait-object child created from inside a method (its Open record names this actor as parent)
+                taid = ids.next("aid")
+                toid = ids.next("oid")
+                it["ops"].append({"op": "tcreate", "aid": taid, "oid": toid,
+                                  "init": {"id": ids.next("item"), "ops": [], "ret": "some"}})
+                owners[toid] = taid
             elif c < 0.55:
-                mk_actor(it["ops"], slab=rng.random() < 0.6, pn=rng.choice(["", "", "fail", "failthru"]))
+                mk_actor(it["ops"], slab=rng.random() < 0.6, pn=rng.choice(["", "", "fail", "failthru"]), inm=True)
             elif c < 0.65 and [o for o in owners if owners[o] > aid]:
                 # ownership edges only point to younger actors: the owner graph stays acyclic
                 oid = rng.choice([o for o in owners if owners[o] > aid])
